@@ -112,6 +112,44 @@ class Check:
         print("  note: " + s)
 
 
+class SubRule:
+    """forwards the instances a borrowed rule produces to a rule of the borrowing property (site prefixed by the source rule id)"""
+    def __init__(self, target, prefix):
+        self.target, self.prefix = target, prefix
+        self.rid = target.rid
+        self.instances = target.instances
+
+    def ok(self, site, loc, detail, config):
+        return self.target.ok(self.prefix + site, loc, detail, config)
+
+    def bad(self, site, loc, detail, config, path=None):
+        return self.target.bad(self.prefix + site, loc, detail, config, path)
+
+    def unknown(self, site, loc, detail, config):
+        return self.target.unknown(self.prefix + site, loc, detail, config)
+
+    def guard(self, site, loc, config):
+        return self.target.guard(self.prefix + site, loc, config)
+
+
+class ViewCheck:
+    """Runs the body of another property's check and keeps only selected rules, re-registered under rules of `chk`.
+    mapping: source rule id -> Rule of chk.  Everything else the body produces is discarded."""
+    def __init__(self, chk, mapping):
+        self.chk, self.mapping = chk, mapping
+        self.tier = chk.tier
+        self.undecided, self.trusted, self.notes, self.extra = [], chk.trusted, [], {}
+        self.pid, self.title = chk.pid, chk.title
+
+    def rule(self, rid, title, family, expect):
+        if rid in self.mapping:
+            return SubRule(self.mapping[rid], rid + ":")
+        return Rule(self, rid, title, family, expect)      # not registered anywhere: discarded
+
+    def note(self, s):
+        pass
+
+
 def run_check(pid, title, body, argv=None, configs=("real", "complex")):
     """body(check, db, config) registers rules/instances; called once per configuration."""
     argv = sys.argv[1:] if argv is None else argv
